@@ -11,7 +11,9 @@ RULE = ('construction monitor: generated plans (random background of wire/child/
         'fresh name instead of the fault; integrity monitor: every catalogue/storage/clock/FP block x configurations x nesting depth '
         'x checked sub-hierarchy x {complete, driver omitted, driver disconnected, output driver disconnected, undriven extra port '
         'at depth L}, plus histories on one live hierarchy (check / disconnect a driver / check twice / re-attach / check, and the '
-        'same starting from a faulty build); plans also contain disconnectWireFromLogicObject steps (primitive driver released and '
+        'same starting from a faulty build); plans also contain library interfaces (AXI4/Lite/Stream), '
+        'write/read sub-interfaces, signals shared by reference and dropped again followed by a second use of the name, and '
+        'disconnectWireFromLogicObject steps (primitive driver released and '
         'replaced, structural block or unrelated object refused). non-trivial = the plan/case contains a fault (accept-only ones are trivial); distinct by content hash')
 SHARDS = {'quick': 1, 'thorough': 16}
 TIMEOUT = {'quick': 600, 'thorough': 3000}
@@ -33,6 +35,10 @@ def assumptions(run):
     run.assume('disconnectWireFromLogicObject(w, obj) releases w only when obj is the primitive whose own port is the source (or a '
                'primitive reader); for a structural block or an unrelated object it is refused ("wire and object are not connected") '
                'and the source stays -- otherwise the inner primitive stays attached and a second driver would be accepted')
+    run.assume('Interface.removeSourceToSink/removeSinkToSource make the interface forget a signal; its wire is still a wire of the '
+               'parent (registered, name taken, same-name creation refused) while another live interface lists it (sub-interfaces and '
+               '...Ref share wires) or a port is attached to it; a signal dropped from its only interface and used by nothing is not '
+               'judged either way')
     run.assume('the verdict of checkIntegrity depends on the hierarchy as it is when called, not on earlier calls in the process')
     run.assume('a hierarchy is any Logic object handed to checkIntegrity: drivers outside the checked sub-hierarchy still count as drivers')
 
